@@ -194,14 +194,14 @@ def _chain_of(locations):
     return tuple((loc.file_path_rel_referrer, loc.source.first_line_number, tuple(loc.source.lines)) for loc in locations)
 
 
-def real_outcome(d: str, root_text: str):
+def real_outcome(d: str, root_text: str, parser=None):
     """-> ('ok', dict phase -> list of normalised elements) | ('syntax' | 'file-access', normalised error)"""
     from exactly_lib.processing.test_case_processing import TestCaseFileReference, ProcessError, AccessorError, \
         AccessErrorType
     from exactly_lib.section_document.model import ElementType
     root = pathlib.Path(d) / ROOT
     try:
-        tc = _real_parser().apply(TestCaseFileReference(root, root.parent), root_text)
+        tc = (parser or _real_parser()).apply(TestCaseFileReference(root, root.parent), root_text)
     except ProcessError as ex:
         ei = ex.error_info
         slp = ei.source_location_path
@@ -230,8 +230,10 @@ def real_outcome(d: str, root_text: str):
                 if phase == 'act':
                     name, tag = 'act', 'act'
                     payload = tuple(ins.source_code().lines)
-                else:
+                elif hasattr(ins, 'stub_name'):
                     name, tag, payload = ins.stub_name, ins.stub_phase, ins.stub_payload
+                else:
+                    name = type(ins).__name__
             elif el.instruction_info is not None:
                 tag = 'non-instruction element with instruction info'
             elems.append((kind, el.source.first_line_number, tuple(el.source.lines),
@@ -293,3 +295,73 @@ def contents_by_phase(real_ok):
     """per phase, what the elements say without where they stand (no line numbers): for the permutation relation"""
     return {phase: [(e[0], e[2], e[3], e[4], e[5], e[6], e[7], e[8]) for e in elems if e[0] == ref.INSTRUCTION]
             for phase, elems in real_ok.items()}
+
+
+# --------------------------------------------------------------------------- K7: the instructions of exactly_lib itself
+
+LINE7 = {
+    'conf': '[conf]', 'setup': '[setup]', 'act': '[act]', 'before-assert': '[before-assert]',
+    'assert': '[assert]', 'cleanup': '[cleanup]',
+    'blank': '', 'comment': '# c',
+    'dir-ok': 'dir d', 'env-ok': 'env X = v', 'shell': '$ echo a', 'nosuch': 'nosuch x',
+    # instructions whose last, mandatory argument is missing on the line
+    'file': 'file', 'dir': 'dir', 'cd': 'cd', 'file=': 'file a.txt =', 'env=': 'env X =', 'def=': 'def string S =',
+    'timeout': 'timeout', 'exit-code==': 'exit-code ==', 'run': 'run', 'copy': 'copy',
+}
+OPEN_ENDED = ('file', 'dir', 'cd', 'file=', 'env=', 'def=', 'timeout', 'exit-code==', 'run', 'copy')
+
+
+def default_parser():
+    """processors._Parser with the instruction set of the program itself"""
+    if 'default-parser' not in _STATE:
+        from exactly_lib.cli_default.program_modes.test_case import default_instructions_setup
+        from exactly_lib.common import instruction_name_and_argument_splitter
+        from exactly_lib.processing import processors
+        from exactly_lib.processing.instruction_setup import TestCaseParsingSetup
+        from exactly_lib.processing.parse.act_phase_source_parser import ActPhaseParser
+        _STATE['default-parser'] = processors._Parser(TestCaseParsingSetup(
+            instruction_name_and_argument_splitter.splitter, default_instructions_setup.INSTRUCTIONS_SETUP, ActPhaseParser()))
+    return _STATE['default-parser']
+
+
+def instructions_of(outcome):
+    """the outcome restricted to what the property speaks about: per phase the instruction elements
+    (type, first line, lines, file, chain, description, class of the instruction)"""
+    if outcome[0] != 'ok':
+        return outcome
+    return ('ok', {ph: [e[:6] + (e[7],) for e in els if e[0] == ref.INSTRUCTION] for ph, els in outcome[1].items()})
+
+
+def shift(outcome, offset: int):
+    """the outcome of a block that stands `offset` lines further down in the file"""
+    if outcome[0] != 'ok':
+        e = outcome[1]
+        return (outcome[0], (e[0] + offset,) + e[1:])
+    return ('ok', {ph: [(e[0], e[1] + offset) + e[2:] for e in els] for ph, els in outcome[1].items()})
+
+
+def compose(block_outcomes):
+    """Reference reading of a file made of blocks, each beginning with a phase header: a header line always
+    begins a new block, so the file reads as its blocks read one by one (the first erroneous block gives the error)."""
+    total = {ph: [] for ph in ref.PHASES}
+    for o in block_outcomes:
+        if o[0] != 'ok':
+            return o
+        for ph in ref.PHASES:
+            total[ph] += o[1][ph]
+    return ('ok', total)
+
+
+def in_region_header_swallowed(blocks) -> bool:
+    """known finding C07-header-swallowed-by-instruction: in a phase other than act and conf, an instruction whose last
+    mandatory argument is missing on its line is followed - after any number of blank and comment lines - by the
+    header line of the next block"""
+    for b in blocks[:-1]:
+        if b[0] in ('act', 'conf'):
+            continue  # (none of the instructions of LINE7 exists in conf)
+        body = list(b[1:])
+        while body and body[-1] in ('blank', 'comment'):
+            body.pop()
+        if body and body[-1] in OPEN_ENDED:
+            return True
+    return False
